@@ -591,7 +591,7 @@ def labs_contrast_section(ck, cx):
             ck.sample({"section": "labs_contrast", **rep})
 
     # (b) real fits
-    M = ck.n(40, 250)
+    M = ck.n(24, 250)
     stale = 0
     for i in range(M):
         n = int(rng.integers(6, 13))
@@ -633,7 +633,11 @@ def labs_contrast_section(ck, cx):
                 stale += 1
                 continue
             except Exception as e:  # noqa
-                ck.fail("labs.contrast/raises/%s/%s" % (tag, feat), "labs glm fit/contrast raised %s: %s" % (type(e).__name__, e), rep)
+                if 1 in sh and V > 1:            # same structural cause as the known stat-shape finding below
+                    ck.fail("labs.contrast/stat-shape/voxel-axis-of-extent-1-squeezed-from-s2-not-from-effect",
+                            "voxel grid %s: fit/contrast/stat raised %s: %s" % (sh, type(e).__name__, e), rep)
+                else:
+                    ck.fail("labs.contrast/raises/%s/%s" % (tag, feat), "labs glm fit/contrast raised %s: %s" % (type(e).__name__, e), rep)
                 continue
             fe, fv, fs, te, tv, ts = out["grid"]
             if ts.size != V or fs.size != V:
